@@ -26,6 +26,11 @@ func init() {
 const expP = "internal/core/export"
 
 func checkC07(c *Ctx) {
+	c07MergeAndFinalize(c)
+	c.checkCounterBalance("counters.inc-dec-balanced", "internal/core/export", map[string]string{
+		// reviewed: a structural leak, but no failing input was found
+		"internal/core/export.(*exporter).structComposite#inDefinition1": "(reviewed exception: the two `continue`s between ++ and -- — missing arc, optional field not shown — do leave inDefinition raised for the rest of the export; it is read only by pivotter.refExpr to decide whether a referenced closed value must be hoisted as a definition, and differential runs of `cue eval/def -e` with and without the counter repaired on hidden optional definitions followed by references to closed values produced identical output, so it is not claimed as a defect)",
+	})
 	markers := map[string]string{
 		"ListMarker":   "BaseValue marker; printed from the vertex (structComposite/listComposite), never reaches this switch as an element",
 		"StructMarker": "BaseValue marker; printed from the vertex, never reaches this switch as an element",
@@ -337,4 +342,53 @@ func c07Guards(c *Ctx) {
 	r := gm.gate(hasEll, shortcuts, nil, gm.Entry)
 	c.check("guards.ellipsis-kept", m.Name, m.Body.Pos(), len(shortcuts) > 0 && r.found && !r.leak && !r.bypass,
 		fmt.Sprintf("mergeValues may return a bare embedding/conjunct instead of a struct only when the struct has no `...` to keep (an open struct printed as its closed embedding rejects fields it accepted): %d shortcut returns, found=%v leak=%v bypass=%v", len(shortcuts), r.found, r.leak, r.bypass))
+}
+
+// c07MergeAndFinalize: two shape facts of the expression exporter.
+// (1) When one label is declared several times in a struct literal that is
+// printed without a vertex of its own, the printed field carries the most
+// restrictive marker seen (regular < ! < ?): addConjunct may lower the recorded
+// arc type, never raise it — the last declaration must not win.
+// (2) finalize hoists out-of-scope references into `let` declarations
+// (completePivot) *before* astutil.Sanitize computes the imports and resolves
+// identifiers; hoisted bodies that Sanitize never saw keep unresolved package
+// references.
+func c07MergeAndFinalize(c *Ctx) {
+	f := c.fn("internal/core/export", "(*conjuncts).addConjunct")
+	cf := newCaseFn(c, f)
+	var less string
+	for k := range cf.atoms() {
+		if strings.HasPrefix(k, "p1 < ") && strings.HasSuffix(k, ".arcType") {
+			less = k
+		}
+	}
+	assign := -1
+	for _, n := range cf.g.Nodes {
+		if as, ok := n.N.(*ast.AssignStmt); ok && len(as.Lhs) == 1 && strings.HasSuffix(exprString(as.Lhs[0]), ".arcType") && cf.canon(as.Rhs[0]) == "p1" {
+			assign = n.ID
+		}
+	}
+	ok := less != "" && assign >= 0
+	det := fmt.Sprintf("test `t < x.arcType` found=%v, assignment found=%v", less != "", assign >= 0)
+	if ok {
+		_, visT := cf.walk(cf.g.Entry, map[string]bool{less: true})
+		_, visF := cf.walk(cf.g.Entry, map[string]bool{less: false})
+		ok = visT[assign] && !visF[assign]
+		det = fmt.Sprintf("more restrictive marker recorded=%v, weaker or equal marker ignored=%v", visT[assign], !visF[assign])
+	}
+	c.check("merge.arc-type-keeps-most-restrictive", f.Name, f.Decl.Pos(), ok,
+		"addConjunct must record the arc type of a further declaration of the same label only if it is more restrictive than the one recorded (`{a: 1, a?: int}` prints `a: ...`, not `a?: ...`): "+det)
+
+	fin := c.fn("internal/core/export", "(*exporter).finalize")
+	g := c.graph(fin)
+	piv := g.callNodes("internal/core/export.(*exporter).completePivot")
+	san := g.callNodes("cue/ast/astutil.Sanitize")
+	okF := len(piv) > 0 && len(san) > 0
+	for id := range san {
+		if !g.mustPassNode(id, setOf(keys(piv))) {
+			okF = false
+		}
+	}
+	c.check("finalize.pivot-completed-before-sanitize", fin.Name, fin.Decl.Pos(), okF,
+		"finalize must add the hoisted `let` declarations (completePivot) before astutil.Sanitize runs on the file: Sanitize inserts the import declarations and resolves identifiers only for what the file contains at that moment")
 }
